@@ -378,6 +378,42 @@ impl Engine for ConcEngine {
             knobs.insert("prefill_flush".into(), 1);
             knobs.insert("sandwich".into(), 1);
         }
+        // "offloaded rmw" family (own tape, C07/C08/C16/C18): a counter lives on the device only; an
+        // increment has fetched its operand and is held in front of its guarded swap while another
+        // client replaces the generation and the flusher writes the replacement out and offloads it
+        // too - the record under the guard is then offloaded like the one the operand came from,
+        // but it is a different generation
+        let mut ofl = Tape::fresh(mix(seed, 0x0FF1));
+        if matches!(property, "C07" | "C08" | "C16" | "C18") && persistent && knobs.get("pin_window").is_none() && knobs.get("sandwich").is_none() && knobs.get("recreate").is_none() && ofl.chance(1, 10) {
+            store.ttl = false;
+            store.sweeper = None;
+            sim.shards = 1;
+            sim.workers = 1;
+            sim.strategy = Strategy::Starve(crate::sched::HOLD_ANY);
+            sim.hold_sites = vec!["incr.before_swap".to_string()];
+            sim.hold_steps = *ofl.pick(&[150u64, 400, 1200]);
+            let explicit_flush = ofl.chance(2, 3);
+            sim.hold_through_idle = !explicit_flush;
+            let replacement = Val { len: 8, kind: ValKind::Counter(1 << (12 + ofl.below(12))) };
+            let mut other = vec![if ofl.chance(1, 2) {
+                Op::Insert { key: 0, val: replacement, ts: Ts::Auto, ttl: 0, bytes: ofl.chance(1, 2) }
+            } else {
+                Op::Cas { key: 0, expect: Expect::Current, val: replacement, ts: Ts::Auto, ttl: 0 }
+            }];
+            if explicit_flush {
+                other.push(Op::Flush);
+            }
+            other.push(Op::Get { key: 0, bytes: false });
+            let incr = vec![Op::Incr { key: 0, delta: 1 << ofl.below(8), ts: Ts::Auto, ttl: 0 }, Op::Get { key: 0, bytes: false }];
+            clients = vec![incr, other];
+            if ofl.chance(1, 3) {
+                clients.push(vec![Op::Get { key: 0, bytes: true }, Op::Get { key: 0, bytes: false }]);
+            }
+            knobs.insert("prefill".into(), 1);
+            knobs.insert("prefill_flush".into(), 1);
+            knobs.insert("prefill_counter".into(), 1);
+            knobs.insert("offloaded_rmw".into(), 1);
+        }
         // "expired rmw" family (own tape): a key arrives already expired while the sweeper runs,
         // and one client follows up with two automatic writes in the same clock tick - the
         // versions handed out around a retirement somebody else performed must still increase
@@ -458,7 +494,8 @@ impl Engine for ConcEngine {
             })));
         }
         for i in 0..prefill.min(sc.keys.len()) {
-            let ops = vec![Op::Insert { key: i, val: Val { len: 900 + i, kind: ValKind::Plain }, ts: Ts::Auto, ttl: 0, bytes: false }];
+            let val = if sc.knob("prefill_counter", 0) == 1 { Val { len: 8, kind: ValKind::Counter(5) } } else { Val { len: 900 + i, kind: ValKind::Plain } };
+            let ops = vec![Op::Insert { key: i, val, ts: Ts::Auto, ttl: 0, bytes: false }];
             client_loop(sim, &store, &sc.keys, &ops, 200 + i, sc.store.format, &tl, &history, &values);
         }
         if prefill > 0 && sc.store.persistent && (sc.seed % 2 == 0 || sc.knob("prefill_flush", 0) == 1) {
